@@ -16,7 +16,7 @@ RULE = ('cases = generated programs for 2-3 connections on one DB (file/mapping/
         'committed a newer revision after the reader\'s boundary; distinct by program hash')
 ASSUMPTIONS = ['thread schedules are not explored by this check: interleavings are at operation granularity in one thread '
                '(DESIGN section 4 and 10)']
-BUDGET = {'quick': {'examples': 4000, 'workers': 8},
+BUDGET = {'quick': {'examples': 6000, 'workers': 8},
           'thorough': {'examples': 30000, 'workers': 16}}
 
 
@@ -81,7 +81,7 @@ def strategy(tier, weights='mixed'):
     n = 25 if tier == 'quick' else 50
     seq = _seq_strategy(n, weights)
     roles = ['committer', 'committer', 'reader'] if weights == 'mixed' else ['committer']
-    return st.one_of(seq, seq, seq, thread_strategy(roles))
+    return st.one_of(seq, seq, thread_strategy(roles), thread_strategy(roles))
 
 
 def _seq_strategy(n, weights):
